@@ -187,6 +187,22 @@ def run(chk):
                 mfiles = mv.split(" ")[1].split(",") if " " in mv else []
                 if sorted(mfiles) != sorted(bad_files):
                     dis += 1
+    # every mirrored output path already holds a file of exactly the SIZE of the new output, with another content (second
+    # batch: the sizes are known from the base runs)
+    same = []
+    for c in cases:
+        if c[1] == "base" and c[5] in base_out and not c[0].endswith("@a"):
+            pre3 = tuple((p, "#" * (len(cnt.encode("utf-8")) - 1) + "\n") for p, cnt in base_out[c[5]].items() if cnt)
+            same.append((c[0] + "_presame", c[2], pre3, c[5]))
+    sres = chk.harness("proj", [(cid, payload(files, pre)) for cid, files, pre, _ in same], parallel=16) if same else {}
+    for cid, files, pre, group in same:
+        verdict, msgs, tree = parse_result(sres.get(cid, "MISSING"))
+        outs = {p: tree.get(p) for p in base_out[group]}
+        if (verdict != "ok" or outs != base_out[group]) and len(chk.violations) < 5:
+            diff = [p for p in outs if outs[p] != base_out[group][p]]
+            chk.violation("input", "the output of %s depends on the prior content of the output directory (a file of the same size)" % (diff or verdict),
+                          case={"kind": "proj", "files": files, "pre": [list(x) for x in pre], "case": "pre"}, actual=str(outs.get(diff[0]) if diff else verdict)[:1500])
+    chk.cov["same_size_prior_outputs"] = len(same)
     # order independence of mamba_to_python itself (transpile_dir lists files by glob, so the order of the
     # file list can only be varied at this level): all permutations of every base project
     mreqs, groups = [], {}
